@@ -16,9 +16,10 @@ concrete witness that the harness replays on the real code (directed programs 0,
 * `C08_counterexample_root`  — crash after the first root of an empty store was registered: recovery deletes the
   root blob and leaves the handle (`rollbackNewRootNodes` looks at the recovering transaction's `committedState`).
 
-A fourth mechanism concerns later WRITERS, not readers (`C08_counterexample_blocked`, C08-F4): recovery's
-`rollbackRemovedNodes` zeroes the timestamp of a removed node's handle that has both physical ids in use; no later
-transaction can ever update that node (`stuck_never_reservable`, `blocked_node_after_recovery`, `C08_window_F4_blocks`).
+A fourth mechanism concerned later WRITERS, not readers (C08-F4, repaired by 212dd4ca): recovery's
+`rollbackRemovedNodes` zeroed the timestamp of a removed node's handle that has both physical ids in use, so that no
+later transaction could ever update that node (`stuck_never_reservable`, `legacy_undo_image_stuck`); the repaired
+image is never stuck (`undo_image_not_stuck`, `undoOf_not_stuck`, `C08_F4_repaired_on_witness`).
 
 What does hold (proved for every state / write set / crash point, not for samples):
 * `C08_atomic_outside_windows` — for every start state, write set (`WF`) and crash point OUTSIDE the three finding
@@ -363,12 +364,15 @@ theorem C08_windows_exact_on_witness :
   decide +kernel
 
 
-/-! ## C08-F4: a removed node left un-reservable for ever
+/-! ## C08-F4 (repaired by 212dd4ca): a removed node must stay reservable after the removal is undone
 
-Not a view defect — every reader sees the old state — but the last conjunct of `Statement_C08` (`usable`): recovery's
-`rollbackRemovedNodes` clears the deleted mark and ZEROES `WorkInProgressTimestamp`. On a handle that an earlier commit
-had updated (both physical ids in use, timestamp 1 = "the inactive id may be reused") this removes the only thing that
-lets a later `commitUpdatedNodes` reuse the slot: `AllocateID` returns nil and `IsExpiredInactive()` is false for ever. -/
+Not a view defect — every reader sees the old state — but the last conjunct of `Statement_C08` (`usable`). Before the
+repair recovery's `rollbackRemovedNodes` cleared the deleted mark and ZEROED `WorkInProgressTimestamp`; on a handle that
+an earlier commit had updated (both physical ids in use, timestamp 1 = "the inactive id may be reused") this removed the
+only thing that lets a later `commitUpdatedNodes` reuse the slot: `AllocateID` returns nil and `IsExpiredInactive()` is
+false for ever (`stuck_never_reservable`, `legacy_undo_image_stuck`). The repaired code puts the marker 1 back when the
+handle still carries two ids; the model follows it, and the image it writes is never `stuck` (`undo_image_not_stuck`,
+for every handle); on the witness no crash point leaves the removed node stuck or unusable (`C08_F4_repaired_on_witness`). -/
 
 /-- a `stuck` handle is refused by `commitUpdatedNodes` whatever the clock, the generated id and the version read -/
 theorem stuck_never_reservable (h : Handle) (hs : stuck h = true) (now hour : Int) (f : UUID) (v : Int) :
@@ -391,6 +395,28 @@ theorem stuck_never_reservable (h : Handle) (hs : stuck h = true) (now hour : In
       · rfl
       · simp [Handle.allocate, hb]
 
+/-- **the image the repaired `rollbackRemovedNodes` writes is never `stuck`** — for every handle -/
+theorem undo_image_not_stuck (h : Handle) :
+    stuck { h with deleted := false, wip := if h.bothInUse then 1 else 0 } = false := by
+  unfold stuck
+  by_cases hb : h.bothInUse = true
+  · simp [hb]
+  · have hb' : h.bothInUse = false := by simpa using hb
+    have : ({ h with deleted := false, wip := if h.bothInUse then 1 else 0 } : Handle).bothInUse = false := by
+      simpa [Handle.bothInUse] using hb'
+    simp [this]
+
+/-- every handle the recovery's undo of removal marks writes (`undoOf`, the walk's `commitRemovedNodes` line) is not stuck -/
+theorem undoOf_not_stuck (s : State) (lids : List UUID) : ∀ h' ∈ undoOf s lids, stuck h' = false := by
+  intro h' hm
+  unfold undoOf at hm
+  obtain ⟨h, _, rfl⟩ := List.mem_map.mp hm
+  exact undo_image_not_stuck h
+
+/-- the legacy image (timestamp zeroed unconditionally) of a marked two-id handle IS stuck: what C08-F4 was -/
+theorem legacy_undo_image_stuck :
+    stuck { (⟨1, 1, 2, true, 2, 1000000000, true⟩ : Handle) with deleted := false, wip := 0 } = true := by decide
+
 /-- node 1 was updated by an earlier commit: both physical ids in use, B active, version 2, timestamp 1 -/
 def sB : State :=
   { ((({} : State).setReg ⟨1, 1, 2, true, 2, 1, false⟩).setBlob 2 true) with
@@ -400,33 +426,28 @@ def wB : WS := { stores := [{ store := 0, removed := [(1, 2)], items := 1, delta
 
 theorem readyB : Ready sB [] wB = true := by decide
 
-/-- C08-F4 window: a removed node's handle has both physical ids in use, `commitAddedNodes` is logged (so the recovery
-undoes the removal marks), cleanup has not logged its first line -/
+/-- the former C08-F4 window: a removed node's handle has both physical ids in use, `commitAddedNodes` is logged (so the
+recovery undoes the removal marks), cleanup has not logged its first line -/
 def inF4 (s : State) (w : WS) (p : List DOp) : Bool :=
   w.removed.any (fun x => match s.reg x.1 with
     | some h => h.bothInUse
     | none => false)
   && hasLog .commitAddedNodes p && !hasLog .deleteObsoleteEntries p
 
-/-- crash point 8 (right after `tlog.Add 8`, outside F1–F3): readers see node 1 as before, but its handle has lost its
-timestamp with both ids in use — it was reservable before the commit and is `stuck` after the recovery -/
-theorem blocked_node_after_recovery :
+/-- crash point 8 (right after `tlog.Add 8`, inside the former F4 window, outside F1–F3): readers see node 1 as before
+and its handle is back to exactly what it was — both ids, timestamp 1 — reservable by a later writer -/
+theorem removed_node_restored_after_recovery :
     let a := (recover (crashAt sB 1 [] wB 8)).1.s
     crashWindow sB [] wB 8 = false ∧ inF4 sB wB ((commitOps sB [] wB).take 8) = true
     ∧ a.view 1 = sB.view 1 ∧ a.cnt 0 = sB.cnt 0
-    ∧ a.reg 1 = some ⟨1, 1, 2, true, 2, 0, false⟩ ∧ stuckLids a wB = [1] ∧ stuckLids sB wB = []
-    ∧ usable sB wB = true ∧ usable a wB = false := by decide +kernel
+    ∧ a.reg 1 = sB.reg 1 ∧ stuckLids a wB = []
+    ∧ usable sB wB = true ∧ usable a wB = true := by decide +kernel
 
-theorem C08_counterexample_blocked : ¬ Statement_C08 := by
-  intro h
-  have := h sB [] wB 8 readyB
-  revert this
-  decide +kernel
-
-/-- on the witness the recovery leaves node 1 `stuck` at exactly the crash points of the F4 window (all 20 crash points) -/
-theorem C08_window_F4_blocks :
+/-- **C08-F4 repaired, on the witness**: at all 20 crash points (the former window 8..15 included) the recovery leaves
+no node of the write set stuck, and a later writer can reserve it -/
+theorem C08_F4_repaired_on_witness :
     ∀ m ∈ List.range 20,
-      inF4 sB wB ((commitOps sB [] wB).take m) = !(stuckLids (recover (crashAt sB 1 [] wB m)).1.s wB).isEmpty := by
+      stuckLids (recover (crashAt sB 1 [] wB m)).1.s wB = [] ∧ usable (recover (crashAt sB 1 [] wB m)).1.s wB = true := by
   decide +kernel
 
 end Sop.C08
